@@ -6,18 +6,15 @@
 package main
 
 import (
-	"bufio"
 	"fmt"
 	"math"
-	"os"
-	"os/exec"
-	"path/filepath"
 	"strings"
 	"time"
 
 	"example.com/scion-time/driver/clocks"
 
 	"verifharness/lib"
+	"verifharness/svclib"
 )
 
 // a source that completes exactly at the round's deadline (delay == timeout):
@@ -140,6 +137,49 @@ func genManySources(r *lib.Rng, maxRounds int) *scenario {
 		n = maxRounds
 	}
 	genRounds(r, sc, n, lib.Pick(r, 0, 0, 20, 40))
+	return sc
+}
+
+// a side with exactly one source, and that source does not come back by the deadline (late, blocked until the
+// context ends, or ignoring the context altogether): the round must still end at its deadline
+func genSingleHang(r *lib.Rng) *scenario {
+	sc := &scenario{fam: "single-source-hang"}
+	saneConfig(r, sc)
+	if sc.timeout > 1<<40 || sc.interval > 1<<40 {
+		sc.timeout, sc.interval = 500*ms, 1*s
+	}
+	switch r.Intn(3) {
+	case 0:
+		sc.nref, sc.npeer = 1, 0
+	case 1:
+		sc.nref, sc.npeer = 0, 1
+	default:
+		sc.nref, sc.npeer = 1, 1
+	}
+	g := newOffGen(r, sc)
+	n := 2 + r.Intn(3)
+	for i := 0; i < n; i++ {
+		var rs roundSpec
+		slow := func() beh {
+			switch r.Intn(4) {
+			case 0:
+				return beh{0, g.off(), 0}
+			case 1:
+				return beh{2, g.off(), sc.timeout + 1 + r.Range(0, sc.interval)}
+			case 2:
+				return beh{3, g.off(), 0}
+			default:
+				return beh{4, g.off(), 0}
+			}
+		}
+		for j := 0; j < sc.nref; j++ {
+			rs.refs = append(rs.refs, slow())
+		}
+		for j := 0; j < sc.npeer; j++ {
+			rs.peers = append(rs.peers, slow())
+		}
+		sc.rounds = append(sc.rounds, rs)
+	}
 	return sc
 }
 
@@ -266,14 +306,16 @@ func quoted(cs []cfgClock) string {
 
 // clocksCase: refs (in the order mbg, phc, shm, ntp) and peers as configured; observed: the two lists
 // createClocks returned, every element identified by what it was built from (code 9999: not a configured clock)
-func clocksCase(bin string, refs, peers []cfgClock, scionLocal bool) {
+func clocksCase(bin string, refs, peers []cfgClock, scionLocal, withDaemon bool) {
 	var b strings.Builder
 	if scionLocal {
 		b.WriteString("local_address = \"1-ff00:0:111,10.1.1.11\"\n")
 	} else {
 		b.WriteString("local_address = \"0-0,10.1.1.11\"\n")
 	}
-	b.WriteString("scion_daemon_address = \"10.1.1.11:30255\"\n") // cleared by the hook: nothing is contacted
+	if withDaemon {
+		b.WriteString("scion_daemon_address = \"@DAEMON@\"\n") // svclib starts a stub daemon for the call
+	}
 	var by [5][]cfgClock
 	for _, c := range refs {
 		by[c.kind] = append(by[c.kind], c)
@@ -299,44 +341,34 @@ func clocksCase(bin string, refs, peers []cfgClock, scionLocal bool) {
 	if len(peers) > 0 {
 		fmt.Fprintf(&b, "scion_peer_clocks = %s\n", quoted(peers))
 	}
-	file := filepath.Join(svcDir, "wiring.toml")
-	if err := os.WriteFile(file, []byte(b.String()), 0o600); err != nil {
-		panic(err)
+	res, err := svclib.Wiring(bin, b.String())
+	if err != nil {
+		panic(fmt.Sprintf("c01: %v", err))
 	}
-	cmd := exec.Command(bin)
-	cmd.Env = append(os.Environ(), "SCION_TIME_VERIF_WIRING="+file)
-	out, err := cmd.CombinedOutput()
 	table := map[string]int64{}
 	for _, c := range append(append([]cfgClock{}, refs...), peers...) {
 		table[c.printed()] = c.code()
 	}
 	var orefs, opeers []string
-	done := false
-	sc := bufio.NewScanner(strings.NewReader(string(out)))
-	for sc.Scan() {
-		f := strings.Fields(sc.Text())
-		if len(f) >= 5 && f[0] == "verif-wiring" {
-			code, ok := table[strings.Join(f[3:], " ")]
-			if !ok {
-				code = 9999
-			}
-			if f[1] == "ref" {
-				orefs = append(orefs, lib.I(code))
-			} else {
-				opeers = append(opeers, lib.I(code))
-			}
+	for _, c := range res.Clocks {
+		code, ok := table[c.Kind+" "+c.ID]
+		if !ok {
+			code = 9999
 		}
-		if len(f) == 3 && f[0] == "verif-wiring-done" {
-			done = true
+		if c.Role == "ref" {
+			orefs = append(orefs, lib.I(code))
+		} else {
+			opeers = append(opeers, lib.I(code))
 		}
 	}
+	done := !res.Fatal
 	// the configuration order of the reference clocks, as createClocks builds them
 	var ordered []cfgClock
 	for _, k := range []int{2, 3, 4} {
 		ordered = append(ordered, by[k]...)
 	}
 	ordered = append(ordered, ntp...)
-	ok := err == nil && done
+	ok := done
 	w.Case("sync.clocks", "nt,clocks", lib.V(codes(ordered), codes(peers)), lib.V(lib.Bool(ok), lib.L(orefs...), lib.L(opeers...)))
 }
 
@@ -368,7 +400,7 @@ func clocksCases(r *lib.Rng, bin string, n int) {
 				peers = append(peers, cfgClock{1, next()})
 			}
 		}
-		clocksCase(bin, refs, peers, scionLocal)
+		clocksCase(bin, refs, peers, scionLocal, scionLocal && r.Bool())
 	}
 }
 
@@ -397,5 +429,5 @@ func replayClocks(args string) {
 			scionLocal = true
 		}
 	}
-	clocksCase(bin, refs, peers, scionLocal)
+	clocksCase(bin, refs, peers, scionLocal, scionLocal)
 }
